@@ -808,6 +808,7 @@ func (in *Interp) eval(st *State, e ast.Expr) Val {
 			idx := in.evalInt(st, x.Index)
 			in.site(st, b, "index", b.Off.Add(idx), Const(1), x)
 			if st.bufs[b.ID] != nil && st.bufs[b.ID].Origin == "param" {
+				in.pendingRead = &Rec{Off: b.Off.Add(idx), W: Const(1), Kind: "byte", Pos: x.Pos()}
 				return IntV{setAtomMax(FromAtom(&Atom{Kind: "val", Path: "P[" + b.Off.Add(idx).String() + "]"}), 255)}
 			}
 			return IntV{setAtomMax(Opq(in.render(st, e)), 255)} // a byte of a local buffer
